@@ -302,6 +302,31 @@ fn existing_paths(v: &Value, prefix: Option<&str>, out: &mut Vec<String>) {
     }
 }
 
+const KNOWN_OPTION_PATHS: &[&str] = &[
+    "trust.user_anchors",
+    "trust.trust_anchors",
+    "trust.trust_config",
+    "trust.allowed_list",
+    "cawg_trust.user_anchors",
+    "cawg_trust.trust_anchors",
+    "cawg_trust.trust_config",
+    "cawg_trust.allowed_list",
+    "cawg_trust.trusted_ica_issuers",
+    "core.merkle_tree_chunk_size_in_kb",
+    "core.allowed_network_hosts",
+    "builder.vendor",
+    "builder.thumbnail.format",
+    "builder.actions.all_actions_included",
+    "builder.actions.templates",
+    "builder.actions.actions",
+    "builder.certificate_status_fetch",
+    "builder.certificate_status_should_override",
+    "builder.intent",
+    "builder.created_assertion_labels",
+    "builder.generate_c2pa_archive",
+    "soft_binding.soft_binding_algorithms",
+];
+
 struct Schema {
     dflt: Value,
     /// every path of the default settings value with the default found there
@@ -322,6 +347,13 @@ impl Schema {
             }
         }
         walk(&dflt, "", &mut nodes);
+        // optional members the serializer may leave out of the default value: they are schema
+        // paths all the same (tracked and given edge values like the others)
+        for p in KNOWN_OPTION_PATHS {
+            if !nodes.iter().any(|(q, _)| q == p) {
+                nodes.push((p.to_string(), Value::Null));
+            }
+        }
         Schema { dflt, nodes }
     }
 }
@@ -687,6 +719,160 @@ fn case_get(run: &mut Run, t: Value, p: String) {
 
 struct Tl {
     at_start: Value,
+    /// what the current session has set so far (path -> value set), checked after every step
+    track: std::cell::RefCell<Track>,
+}
+
+/// Ledger of the values a multi-step session has SET on schema paths. The expectation is the
+/// value that was set — never a value that went through deserialize/serialize.
+#[derive(Default)]
+struct Track {
+    /// schema paths of `to_value(Settings::default())` with the default found there
+    schema: std::collections::BTreeMap<String, Value>,
+    ledger: Vec<(String, Value, usize)>,
+    step: usize,
+}
+
+fn related(a: &str, b: &str) -> bool {
+    a == b || a.is_empty() || b.is_empty() || a.strip_prefix(b).map(|r| r.starts_with('.')).unwrap_or(false)
+        || b.strip_prefix(a).map(|r| r.starts_with('.')).unwrap_or(false)
+}
+
+/// leaves of an overlay document: (dotted path, value); an empty object is a leaf; the root
+/// being a non-object is the single leaf "" (everything is named).
+fn overlay_leaves(v: &Value, pre: &str, out: &mut Vec<(String, Value)>) {
+    overlay_leaves_at(v, pre, 0, out)
+}
+
+/// An object `LIMIT` levels down replaces the target's value wholesale (the documented depth
+/// limit of the merge), so it names its whole subtree: it is a leaf here.
+fn overlay_leaves_at(v: &Value, pre: &str, depth: usize, out: &mut Vec<(String, Value)>) {
+    match v {
+        Value::Object(m) if !m.is_empty() && depth < LIMIT => {
+            for (k, x) in m {
+                let p = if depth == 0 { k.clone() } else { format!("{pre}.{k}") };
+                overlay_leaves_at(x, &p, depth + 1, out);
+            }
+        }
+        leaf => out.push((pre.to_string(), leaf.clone())),
+    }
+}
+
+fn diff_paths(a: &Value, b: &Value, pre: &str, out: &mut Vec<String>) {
+    match (a, b) {
+        (Value::Object(x), Value::Object(y)) => {
+            let mut ks: Vec<&String> = x.keys().chain(y.keys()).collect();
+            ks.sort();
+            ks.dedup();
+            for k in ks {
+                let p = if pre.is_empty() { k.clone() } else { format!("{pre}.{k}") };
+                match (x.get(k), y.get(k)) {
+                    (Some(p1), Some(p2)) => diff_paths(p1, p2, &p, out),
+                    _ => out.push(p),
+                }
+            }
+        }
+        _ => {
+            if a != b {
+                out.push(pre.to_string());
+            }
+        }
+    }
+}
+
+/// Values that a schema path must give back exactly as set (no case folding, no defaults
+/// filled in): null, booleans, non-negative integers, the empty string, empty arrays and
+/// arrays of plain strings. Objects are not tracked (missing members are filled in).
+fn trackable(path: &str, dflt: &Value, v: &Value) -> bool {
+    match v {
+        Value::Null => true,
+        Value::Bool(_) => dflt.is_boolean() || dflt.is_null(),
+        Value::Number(n) => n.is_u64() && (dflt.is_number() || dflt.is_null()),
+        Value::String(s) => s.is_empty() && dflt.is_null(),
+        Value::Array(a) => {
+            (dflt.is_null() || dflt.is_array())
+                && (a.is_empty() || (a.iter().all(|x| x.is_string()) && !path.ends_with("allowed_network_hosts")))
+        }
+        Value::Object(_) => false,
+    }
+}
+
+const SECTIONS: &[&str] = &["version", "trust", "cawg_trust", "core", "verify", "builder", "signer", "cawg_x509_signer", "soft_binding"];
+
+fn section_eq(a: &Settings, b: &Settings, sec: &str) -> bool {
+    match sec {
+        "version" => a.version == b.version,
+        "trust" => a.trust == b.trust,
+        "cawg_trust" => a.cawg_trust == b.cawg_trust,
+        "core" => a.core == b.core,
+        "verify" => a.verify == b.verify,
+        "builder" => a.builder == b.builder,
+        "signer" => a.signer == b.signer,
+        "cawg_x509_signer" => a.cawg_x509_signer == b.cawg_x509_signer,
+        "soft_binding" => a.soft_binding == b.soft_binding,
+        _ => true,
+    }
+}
+
+/// The sequence oracle, evaluated on the implementation after every step of a session:
+///  * frame: what the step did not name is unchanged — per settings section on the structs
+///    themselves (no serializer in between) and per path on `to_value`;
+///  * an update with the empty document is the identity on the settings reached;
+///  * every path set earlier in the session (and not named since) still reads back the value SET.
+fn post_step(run: &mut Run, idx: usize, tl: &Tl, before: &Settings, after: &Settings, named: &[(String, Value)], ok: bool, what: &str) {
+    let mut trk = tl.track.borrow_mut();
+    trk.step += 1;
+    let step = trk.step;
+    if ok {
+        let names_all = named.iter().any(|(p, _)| p.is_empty());
+        if !names_all {
+            for sec in SECTIONS {
+                let is_named = named.iter().any(|(p, _)| related(p, sec));
+                if !is_named && !section_eq(before, after, sec) {
+                    run.fail(idx, "frame", format!("step {step} ({what}) names only {:?} but settings section `{sec}` changed", named.iter().map(|x| &x.0).collect::<Vec<_>>()));
+                }
+            }
+            let (bv, av) = (serde_json::to_value(before).expect("to_value"), serde_json::to_value(after).expect("to_value"));
+            let mut d = vec![];
+            diff_paths(&bv, &av, "", &mut d);
+            for p in d {
+                if !named.iter().any(|(q, _)| related(q, &p)) {
+                    run.fail(idx, "frame", format!("step {step} ({what}) names only {:?} but `{p}` changed", named.iter().map(|x| &x.0).collect::<Vec<_>>()));
+                    break;
+                }
+            }
+        }
+        // the empty document changes nothing
+        match after.with_json("{}") {
+            Ok(same) if same == *after => {}
+            Ok(_) => run.fail(idx, "empty-overlay-not-identity", format!("after step {step} ({what}) an update with the empty document `{{}}` changes the settings")),
+            Err(e) => run.fail(idx, "empty-overlay-not-identity", format!("after step {step} ({what}) an update with the empty document fails: {e}")),
+        }
+        // ledger: forget what this step named, remember what it set
+        trk.ledger.retain(|(p, _, _)| !named.iter().any(|(q, _)| related(q, p)));
+        for (p, v) in named {
+            if let Some(d) = trk.schema.get(p) {
+                if trackable(p, d, v) {
+                    let entry = (p.clone(), v.clone(), step);
+                    trk.ledger.push(entry);
+                }
+            }
+        }
+    }
+    // everything set earlier still reads back the value that was set
+    for (p, v, at) in trk.ledger.iter() {
+        let got = after.get_value::<Value>(p);
+        let fine = match (&got, v) {
+            (Ok(g), v) if g == v => true,
+            (Err(_), Value::Null) => true, // an absent optional and an explicit null are the same setting
+            _ => false,
+        };
+        if !fine {
+            run.fail(idx, "set-value-lost", format!("`{p}` was set to {v} in step {at}; after step {step} ({what}) get_value gives {:?}", got.as_ref().ok()));
+        } else if *at < step {
+            run.count("ledger_readback_after_later_step");
+        }
+    }
 }
 
 fn tl_check(run: &mut Run, idx: usize, tl: &Tl, what: &str) {
@@ -809,6 +995,13 @@ fn step_update(run: &mut Run, tl: &Tl, s: &mut Settings, text: &str, fmt: &str, 
     }
     if res.is_err() && (*s != before || after != cur) {
         run.fail(idx, "atomicity", format!("failed update (fmt {fmt}) changed the settings"));
+    }
+    {
+        let mut named = vec![];
+        if let Ok(ov) = parse_ref(text, fmt) {
+            overlay_leaves(&ov, "", &mut named);
+        }
+        post_step(run, idx, tl, &before, s, &named, res.is_ok(), variant);
     }
     // deserialisation does not depend on key order (the hypothesis of json_toml_equiv)
     if let Some(m) = &merged {
@@ -935,6 +1128,7 @@ fn step_setval(run: &mut Run, tl: &Tl, s: &mut Settings, path: &str, v: Value, r
             }
         }
     }
+    post_step(run, idx, tl, &before, s, &[(path.to_string(), v.clone())], res.is_ok(), "set_value/with_value");
     tl_check(run, idx, tl, "set_value/with_value");
 }
 
@@ -973,7 +1167,59 @@ fn gen_path_value(sc: &Schema, r: &mut Rng) -> (String, Value) {
     }
 }
 
+fn new_session(tl: &Tl) {
+    let mut t = tl.track.borrow_mut();
+    t.ledger.clear();
+    t.step = 0;
+}
+
+/// Edge values on every schema path, then unrelated updates: 2–4 steps on one Settings
+/// (plain or held by a Context), every step through a different entry point.
+fn edge_session(run: &mut Run, sc: &Schema, tl: &Tl, path: &str, edge: &Value, r: &mut Rng) {
+    new_session(tl);
+    let mut ctx = Context::new();
+    let mut plain = Settings::new();
+    let in_ctx = r.chance(1, 3);
+    run.count(if in_ctx { "edge_session_in_context" } else { "edge_session_plain" });
+    let s: &mut Settings = if in_ctx { ctx.settings_mut() } else { &mut plain };
+    // step 1: the edge value, through one of the entry points
+    let mut doc = json!({});
+    put(&mut doc, path, edge.clone());
+    match (r.below(3), toml_text(&doc)) {
+        (0, _) => step_setval(run, tl, s, path, edge.clone(), r),
+        (1, Some(t)) => step_update(run, tl, s, &t, "toml", r, &["edge_value"]),
+        _ => step_update(run, tl, s, &doc.to_string(), "json", r, &["edge_value"]),
+    }
+    let accepted = tl.track.borrow().ledger.iter().any(|(p, _, _)| p == path);
+    run.count(if accepted { "edge_value_accepted" } else { "edge_value_not_tracked" });
+    // steps 2..: keys in other sections
+    let sec = path.split('.').next().unwrap_or("");
+    for _ in 0..r.range(1, 3) {
+        let (p, v) = loop {
+            let (p, d) = r.pick(&sc.nodes).clone();
+            if d.is_object() || p.split('.').next() == Some(sec) {
+                continue;
+            }
+            let v = match &d {
+                Value::Null => Value::Null,
+                other => same_type(other, r),
+            };
+            break (p, v);
+        };
+        let mut doc = json!({});
+        put(&mut doc, &p, v.clone());
+        match (r.below(4), toml_text(&doc)) {
+            (0, _) => step_setval(run, tl, s, &p, v, r),
+            (1, Some(t)) => step_update(run, tl, s, &t, "toml", r, &["unrelated_key"]),
+            (2, _) => step_update(run, tl, s, "{}", "json", r, &["empty_object"]),
+            _ => step_update(run, tl, s, &doc.to_string(), "json", r, &["unrelated_key"]),
+        }
+    }
+    step_getval(run, s, path);
+}
+
 fn session(run: &mut Run, sc: &Schema, tl: &Tl, r: &mut Rng) {
+    new_session(tl);
     let mut s = Settings::new();
     let steps = r.range(1, 6);
     for _ in 0..steps {
@@ -1014,6 +1260,7 @@ fn session(run: &mut Run, sc: &Schema, tl: &Tl, r: &mut Rng) {
 /// The depth limit through the public API: a free-form map (`claim_generator_info`) nested
 /// `levels` deep with a sibling at every level, then an overlay along the same chain.
 fn deep_session(run: &mut Run, tl: &Tl, levels: usize, r: &mut Rng) {
+    new_session(tl);
     let mut s = Settings::new();
     let base = json!({"builder": {"claim_generator_info": {"name": "deep", "x": chain(levels, json!(1), Some(("s", 1)))}}});
     step_update(run, tl, &mut s, &base.to_string(), "json", r, &["deep_base"]);
@@ -1216,7 +1463,9 @@ pub fn run(run: &mut Run, rng: &mut Rng) {
     run.rule = "hook merge: target and overlay are objects sharing a key whose values are both objects (the recursive branch); \
                 set/get: path of >= 2 segments (get: found); settings steps: the document parsed and either changed the settings \
                 or was rejected by deserialisation/validation (the atomicity branch); set_value: rejected, or accepted with the \
-                schema keeping the document exactly; distinct by request text"
+                schema keeping the document exactly; sessions are 1-6 successive steps on one Settings/Context, with a ledger of the \
+                values SET (edge values [] \"\" {} 0 false null on every schema leaf, then unrelated keys) re-read after every step; \
+                distinct by request text"
         .to_string();
     let sc = Schema::new();
     run.notes.push(format!("schema paths from serde_json::to_value(Settings::default()): {}", sc.nodes.len()));
@@ -1230,7 +1479,10 @@ pub fn run(run: &mut Run, rng: &mut Rng) {
     run.obligations.insert("default-settings-are-a-fixpoint".to_string(), norm_real(&sc.dflt).map(|(_, v)| v == sc.dflt).unwrap_or(false));
 
     hk::reset_thread_local().expect("reset");
-    let tl = Tl { at_start: hk::thread_local_value() };
+    let tl = Tl {
+        at_start: hk::thread_local_value(),
+        track: std::cell::RefCell::new(Track { schema: sc.nodes.iter().cloned().collect(), ..Default::default() }),
+    };
 
     let thorough = run.thorough();
     let n_hook = if thorough { 500_000 } else { 100_000 };
@@ -1308,6 +1560,17 @@ pub fn run(run: &mut Run, rng: &mut Rng) {
             deep_session(run, &tl, levels, &mut r);
         } else {
             session(run, &sc, &tl, &mut r);
+        }
+    }
+    // edge values ([] "" {} 0 false null) on every schema leaf, followed by unrelated updates
+    let edges = [json!([]), json!(""), json!({}), json!(0), json!(false), Value::Null];
+    let leaves: Vec<(String, Value)> = sc.nodes.iter().filter(|(_, d)| !d.is_object()).cloned().collect();
+    for _ in 0..(if thorough { 6 } else { 1 }) {
+        for (p, _) in &leaves {
+            for e in &edges {
+                let mut r = rng.fork();
+                edge_session(run, &sc, &tl, p, e, &mut r);
+            }
         }
     }
     // the boundary of the depth limit through the public API
